@@ -76,6 +76,9 @@ var (
 	// (written by the main goroutine only: it orders nothing between tasks)
 	mainOpSeq  atomic.Uint64
 	hangReport atomic.Pointer[func(string)]
+	// genSeq is odd while the generator asks the engine whether a text compiles
+	genSeq  atomic.Uint64
+	genText atomic.Pointer[string]
 )
 
 // ProcessPoisoned: some run of this process ended with task goroutines left
@@ -571,8 +574,8 @@ func HangWatch(report func(detail string)) {
 	go func() {
 		seen := 0
 		last := ""
-		var spinSeq uint64
-		var spinSince time.Time
+		var spinSeq, genSpinSeq uint64
+		var spinSince, genSpinSince time.Time
 		for {
 			time.Sleep(200 * time.Millisecond)
 			// spinning: one simulated operation on the main goroutine has been
@@ -588,6 +591,24 @@ func HangWatch(report func(detail string)) {
 				}
 			} else {
 				spinSeq = 0
+			}
+			// Compile of a generated text that never returns: not a verdict about any
+			// simulated property (it is a pure function of the text), but the
+			// simulation cannot proceed - say so and stop instead of waiting for the
+			// driver's watchdog
+			if q := genSeq.Load(); q%2 == 1 {
+				if q != genSpinSeq {
+					genSpinSeq, genSpinSince = q, time.Now()
+				} else if time.Since(genSpinSince) > 30*time.Second {
+					t := ""
+					if p := genText.Load(); p != nil {
+						t = *p
+					}
+					fmt.Fprintf(os.Stderr, "xpsim: while generating scenarios, Compile(%q) has not returned for 30 s of real time: Compile does not terminate on this text, the simulation cannot proceed\n", t)
+					os.Exit(2)
+				}
+			} else {
+				genSpinSeq = 0
 			}
 			buf := make([]byte, 1<<18)
 			n := runtime.Stack(buf, true)
